@@ -326,6 +326,40 @@ func rulesDNATo2Bit(c *Ctx, r *Report, ntoiFn *ssa.Function) {
 			}
 		}
 	}
+	cs := s // the symb the append's condition is rendered with
+	if appendBlk == nil {
+		// the new byte opened by a helper of the package that is handed what decides it:
+		// dst = openByte(dst, shift) with `if shift == 6 { dst = append(dst, 0) }` inside
+		instrs(f, func(in ssa.Instruction) {
+			cl, ok := in.(*ssa.Call)
+			if !ok || appendBlk != nil {
+				return
+			}
+			h := cl.Call.StaticCallee()
+			if h == nil || h.Blocks == nil || h.Pkg != f.Pkg || len(h.Params) != len(cl.Call.Args) {
+				return
+			}
+			var hb *ssa.BasicBlock
+			nApp := 0
+			instrs(h, func(in2 ssa.Instruction) {
+				if c2, ok := in2.(*ssa.Call); ok {
+					if bi, ok := c2.Call.Value.(*ssa.Builtin); ok && bi.Name() == "append" {
+						hb = c2.Block()
+						nApp++
+					}
+				}
+			})
+			if nApp != 1 {
+				return
+			}
+			sub := newSymb(h)
+			for i, p := range h.Params {
+				sub.subst[p] = s.expr(cl.Call.Args[i])
+			}
+			appendBlk, cs = hb, sub
+			r.analysed(fname(h))
+		})
+	}
 	if appendBlk == nil {
 		r.undecided("MOD4", where, "append", c.pos(f.Pos()), "no append found")
 		return
@@ -342,7 +376,7 @@ func rulesDNATo2Bit(c *Ctx, r *Report, ntoiFn *ssa.Function) {
 		r.undecided("MOD4", where, "append", c.pos(appendBlk.Instrs[0].Pos()), "the append of a new byte is not controlled by a single condition")
 		return
 	}
-	condSym := s.expr(ctlIf.Cond)
+	condSym := cs.expr(ctlIf.Cond)
 	var takes []string
 	okApp := true
 	for k := int64(0); k < 4; k++ {
